@@ -201,6 +201,10 @@ def run(ctx: Ctx, rep: Report, tier: str):
     _alias(rep, ["C04.tmp"], "C04.R15", "a delete stays deleted when a stale 'exists' event follows it: update_entry turns TRASHED + exists into LIKELY_TRASHED (identity tests on the "
            "enum member and on True), every other event writes its existence flag through (C14.W11)", 1,
            lambda: (rep.rule("C04.tmp", "alias", 0), event_application_writes_through(ctx, rep, "C04.tmp")), keep=lambda i: i.key == "update_entry|exists")
+    from rules.common import definition_holds as _dh
+    rep.rule("C04.R16", "what counts as a deletion (C02.R11): SyncEntry.is_deletion is true exactly when the peer EXISTS and this side is TRASHED / MISSING and changed - a "
+             "one-sided tombstone is not a deletion to fold into a rename", 1)
+    section(rep, lambda: _dh(ctx, rep, "C04.R16", "SyncEntry.is_deletion", "an echo tombstone counts as a deletion and is folded into an unrelated creation, or a real delete is not propagated"))
     from rules.decisions import decision_table, table_sites
     rep.rule("C04.DT", "decision table (rules/decisions.json) of delete handling, the non-empty-folder path, the vanished-object paths and revival: for every function and every action shape (an impure call with the parameters it passes, a store to an "
              "attribute or item, a delete, a returned constant, a yield, a raise) the set of states - over the function's guard atoms - in which the action is taken "
